@@ -50,3 +50,12 @@ def sqrt_ratio_contract(interp, args, kwargs):
 
 
 SQRT_CONTRACT = {lm.get_sqrt_ratio_at_tick: sqrt_ratio_contract}
+
+
+# The ways demeter REJECTS an operation (C03/C04/...): explicit errors (DemeterError is a RuntimeError, require() raises
+# AssertionError, ValueError for malformed arguments), a missing position / instrument key (KeyError), a zero divisor
+# (ZeroDivisionError / decimal.DivisionByZero are ArithmeticError).  Anything else escaping an operation — TypeError,
+# AttributeError, NameError, IndexError, UnboundLocalError ... — is a crash of the simulator, not a rejection: POs catch only
+# REJECT, so a crash surfaces as a failed `no-exception-escapes:<Type>` obligation.
+import decimal as _decimal
+REJECT = (AssertionError, RuntimeError, ValueError, KeyError, ArithmeticError, _decimal.InvalidOperation)
